@@ -344,7 +344,7 @@ def main():
             p = ok[len(ok) // 2]
             samples.append({"scenario": name, "variables_and_ranges": j["vars"], "witness": p["assignment"], "decisions_on_path": p["decisions"], "events": p["events"][:40]})
     exhaustive = all(not j["path_cap_hit"] and not j["time_cap_hit"] and j["unknown_feasibility"] == 0 and not j["aborted"] for j in results.values()) and not failures
-    aborted = [a for j in results.values() for a in j["aborted"]]
+    aborted = [f"{n}: {a}" for n, j in results.items() for a in j["aborted"]]
     ev = {
         "property_id": prop,
         "tier": tier,
@@ -415,7 +415,7 @@ def main():
         for n in kani_notes:
             log("INCONCLUSIVE:", n)
         sys.exit(2)
-    if failures or mismatches or nonrepro or any("abort" in a or "panic" in a or "diverged" in a for a in aborted):
+    if failures or mismatches or nonrepro or any("abort:" in a or "panic" in a for a in aborted):
         for m in mismatches[:5]:
             log("INCONCLUSIVE:", m)
         for n, o in failures[:5]:
